@@ -46,6 +46,10 @@ def _fold(env, sheet, args, f, empty):
                         return x
                     if x is R.UNDEF:
                         return R.UNDEF
+                    if isinstance(x, (bool, str)):
+                        # booleans / texts INSIDE a range: not pinned down
+                        # here (C14 owns aggregates)
+                        return R.UNDEF
                     if R.is_num(x):
                         nums.append(x)
         elif isinstance(v, R.Err):
@@ -152,7 +156,15 @@ def _range(d, sheet, avail, level):
 
 
 def _formula(d, sheet, avail, level):
-    k = d.pick(10)
+    k = d.pick(12)
+    if k == 10:
+        # a comparison as the ROOT of a formula (the cell holds a boolean)
+        return ['op', d.choice(['<', '>', '=', '<=', '>=', '<>']),
+                _operand(d, sheet, avail), _operand(d, sheet, avail)]
+    if k == 11:
+        # a concatenation as the root (the cell holds a text)
+        return ['op', '&', _operand(d, sheet, avail),
+                d.choice([['str', '-'], _operand(d, sheet, avail)])]
     if k < 4:
         return ['op', d.choice(['+', '-', '*', '+']),
                 _operand(d, sheet, avail), _operand(d, sheet, avail)]
